@@ -51,7 +51,7 @@ NIX_CANARY(FileHDF5_ctor_open) __CPROVER_assigns(self->hid, gh_h5_created, gh_h5
 /* File::open, first statement: ReadOnly on a non-existent path is refused before any back end is constructed */
 static inline bool bfs_exists(const cxxstring *name)
 { return gh_file_exists; }
-NIX_THROWS void File_open_guard(const cxxstring *name, FileMode mode)
+NIX_THROWS void File_open_guard(const cxxstring *name, FileMode mode, Compression compression)
 __CPROVER_requires(__CPROVER_is_fresh(name, sizeof(cxxstring)) && MODE_VALID(mode) && nix_exc == EXC_NONE)
 __CPROVER_ensures(/*ReadOnly-on-missing-path-refused*/ (mode == FileMode_ReadOnly && !gh_file_exists) <==> nix_exc == EXC_runtime_error)
 __CPROVER_ensures(/*no-other-exception*/ nix_exc == EXC_NONE || nix_exc == EXC_runtime_error)
